@@ -295,7 +295,7 @@ class C14(Check):
             for j in range(6):
                 yield {'kind': 'maildir', 'hseed': seed * 1_000_003 + h,
                        'layout': rng.choice(['++', 'fs']), 'chunk': j,
-                       'nchunks': 6}
+                       'nchunks': 6, 'must': True}
 
     def run_case(self, spec: dict[str, Any]) -> dict[str, Any]:
         if spec['kind'] == 'maildir':
@@ -370,9 +370,13 @@ class C14(Check):
 
     def run_maildir(self, spec: dict[str, Any]) -> dict[str, Any]:
         rng = random.Random(spec['hseed'])
-        history = crash.gen_history(rng, rng.randint(2, 4), ops=(
+        # every history has a second mailbox, a MOVE into it and a
+        # multi-message APPEND (random histories this short rarely do)
+        history = crash.gen_history(rng, rng.randint(1, 3) if spec.get(
+            'must') else rng.randint(2, 4), ops=(
             'move', 'multiappend', 'move', 'multiappend', 'copy', 'create',
-            'expunge'))
+            'expunge'), must=('create',) + tuple(rng.sample(
+                ['move', 'multiappend'], 2)) if spec.get('must') else ())
         violations: list[dict[str, Any]] = []
         counters: dict[str, int] = {}
         layout = spec['layout']
